@@ -14,7 +14,7 @@ objects carry, per column chunk c, what the code assigned to `file_path`.  OFF(k
   many.num_rows_is_sum_over_result_row_groups            fmd.num_rows = sum(rg.num_rows for rg in <the returned row_groups list>)
   many.verify_schema_differs_raises                      verify_schema and a returning path => every file's WHOLE `_schema` equals the
         first file's (so a differing one raised); many.verify_schema_raise_reachable
-  many.fast.piece_holds_whole_footer / tail_holds_length_field / piece_for_every_file   every byte string handed to _get_fmd
+  many.fast_path.piece_covers_footer_and_trailer / fast.tail_holds_length_field / fast.piece_for_every_file   every byte string handed to _get_fmd
         ends with F ++ le32(|F|) ++ 'PAR1' completely (the re-fetch of too-short tails is sufficient)
   loop invariants `...invariant_on_entry / _preserved`: len == OFF(K) + R and every element placed so far is as above.
   get_fmd[|F| < 2**32].parses_exactly_footer    on the byte-file model, for EVERY footer length the 4-byte field can hold:
@@ -42,6 +42,8 @@ ASSUMED = [
     "dict.update / comprehension / [] are Python's; max(d.values()) is an upper bound of the values",
     "every file is a Parquet file: content == body ++ F ++ le32(|F|) ++ 'PAR1' with |body| >= 4 and |F| >= 10; _get_fmd on such a tail "
     "returns that file's FileMetaData (its own contract get_fmd.parses_exactly_footer below); int(1.4 * n) == floor(14 n / 10)",
+    "_get_fmd / api.ParquetFile return a freshly parsed FileMetaData on every call: row groups of different files are distinct objects "
+    "(get_fmd.returns_a_fresh_object_every_call checks the source for a memoising decorator)",
     "copy.copy(x) is a shallow copy; a row group of a parsed footer whose list is empty may be None (`or []`)",
     "a `for` loop over a list is summarised by an invariant that is proved on entry and after an arbitrary iteration (all variables "
     "the body assigns are arbitrary at its start); universal facts are instantiated at the index terms of each query",
@@ -1011,8 +1013,10 @@ def run_many(funcs, timeout):
         t = args[0]
         if not (isinstance(t, Custom) and isinstance(t.h, TailV)):
             raise Unsupported("_get_fmd of " + type(t).__name__)
-        eng.oblige(p, f"{eng.cur_func}.fast.piece_holds_whole_footer", "post", t.h.tlen() >= HEAD(t.h.k) + 8, node,
-                   note="the bytes handed to _get_fmd end with the file's complete footer, length field and magic")
+        eng.oblige(p, f"{eng.cur_func}.fast_path.piece_covers_footer_and_trailer", "post", t.h.tlen() >= HEAD(t.h.k) + 8, node,
+                   note="after the optional re-fetch, for ALL footer lengths and head sizes: len(piece) >= footer length + 8 - the bytes handed to "
+                        "_get_fmd hold the file's complete footer, its length field and the magic (the precondition of _get_fmd's contract; "
+                        "a shorter piece makes the native thrift reader start mid-struct)")
         return [(p, Custom(FMDv(t.h.k, raw=True)))]
 
     def h_sum(eng, p, args, kw, node):
@@ -1172,12 +1176,24 @@ def run_get_fmd(funcs, timeout, lo, hi, tag):
         res.add(f"get_fmd[{tag}].parses_exactly_footer", st, dict(mfn(m), parsed_len=backends.model_value(m, parsed.n), differs_at=backends.model_value(m, k)) if m else None,
                 secs, detail="content == body ++ F ++ le32(|F|) ++ 'PAR1'  =>  the bytes given to from_buffer are exactly F")
         res.add(f"get_fmd[{tag}].parsed_as_FileMetaData", PROVED if q.ghost.get("parsed_as") == "FileMetaData" else REFUTED, None, 0.0, "trace")
+    # each call parses anew: metadata_from_many re-paths the row groups of every parsed footer IN PLACE, so the objects returned for
+    # different files (even with byte-identical footers) must be distinct - no memoising decorator, the value returned is the parse
+    f = funcs["_get_fmd"]
+    decos = f.report.get("decorators_dropped", [])
+    rets = [n for n in ast.walk(f.tree) if isinstance(n, ast.Return)]
+    direct = len(rets) == 1 and isinstance(rets[0].value, ast.Call) and ast.unparse(rets[0].value.func).split(".")[-1] == "from_buffer"
+    res.add("get_fmd.returns_a_fresh_object_every_call", PROVED if not decos and direct else REFUTED,
+            None if not decos and direct else {"decorators": decos, "returns_the_parse_directly": direct}, 0.0, "ast",
+            "no decorator (cache / memoisation) on _get_fmd and it returns from_buffer(...) itself: files with identical footers get distinct "
+            "FileMetaData objects (required by many.file_loop[fast].writes_only_current_file)")
     return res, n
 
 
-def _record(ctx, fq, res, known=None):
+def _record(ctx, fq, res, known=None, only=None):
     out = []
     for name in res.order:
+        if only is not None and not only(name):
+            continue
         st = res.status(name)
         e = next((x for x in res.d[name] if x[0] == st), res.d[name][0])
         secs = sum(x[2] for x in res.d[name])
@@ -1196,8 +1212,12 @@ def known_for(name):
     return None          # no open finding (the two found with this contract were repaired: 64ae902, de16924)
 
 
-def check(ctx, timeout):
-    """-> list of (name, model, detail) refuted outside known findings"""
+FETCH_FAMILY = ("many.fast_path.", "many.fast.", "get_fmd[", "get_fmd.")
+
+
+def check(ctx, timeout, only=None):
+    """-> list of (name, model, detail) refuted outside known findings.  `only`: predicate on obligation names (a family of the
+    contract exposed to another property, e.g. the footer-fetch logic = memory-safety precondition of the native thrift reader)"""
     funcs, _, _ = parse_module("fastparquet/util.py")
     for fn in ("metadata_from_many", "_get_fmd"):
         ctx.function("util." + fn, funcs[fn].sha, funcs[fn].report)
@@ -1209,7 +1229,7 @@ def check(ctx, timeout):
             ctx.vacuity[k] += v
         if not all(res.vacuity.values()):
             ctx.engine_error(f"metadata_from_many: vacuity guard failed {res.vacuity}")
-        out += _record(ctx, "util.metadata_from_many", res, known_for)
+        out += _record(ctx, "util.metadata_from_many", res, known_for, only)
     except Unsupported as ex:
         ctx.obligation("metadata_from_many.out_of_reach", "util.metadata_from_many", UNKNOWN, "engine", 0.0, detail=str(ex), sample=True)
     try:
@@ -1218,7 +1238,7 @@ def check(ctx, timeout):
             ctx.vacuity["covers"] += n
             if n == 0 and lo == 0:
                 ctx.engine_error("_get_fmd: no returning path")
-            out += _record(ctx, "util._get_fmd", res, known_for)
+            out += _record(ctx, "util._get_fmd", res, known_for, only)
     except Unsupported as ex:
         ctx.obligation("_get_fmd.out_of_reach", "util._get_fmd", UNKNOWN, "engine", 0.0, detail=str(ex), sample=True)
     return out
